@@ -83,9 +83,10 @@ func (h *Handler) Listen(s *xmpp.Session) *Listener {
 		return l
 	}
 	l = &Listener{
-		s: s,
-		h: h,
-		c: make(chan *Conn),
+		s:    s,
+		h:    h,
+		c:    make(chan *Conn),
+		done: make(chan struct{}),
 	}
 	h.l[addrStr] = l
 	return l
@@ -180,16 +181,32 @@ func handleOpen(h *Handler, iq openIQ, e xmlstream.Encoder) error {
 	conn := newConn(h, l.s, iq, true, MaxBufferSize)
 	h.addStream(iq.Open.SID, conn)
 
+	// Look the stream up under the lock but hand it over without it: the
+	// hand-over waits for the application, and Expect needs the lock.
 	l.eLock.Lock()
-	defer l.eLock.Unlock()
 	key := iq.From.String() + ":" + iq.Open.SID
 	expect, ok := l.expected[key]
 	if ok {
 		delete(l.expected, key)
-		expect.c <- conn
-		return nil
 	}
-	l.c <- conn
+	l.eLock.Unlock()
+	if ok {
+		select {
+		case expect.c <- conn:
+			return nil
+		case <-expect.done:
+			// The Expect call gave up in the meantime: the stream is one like
+			// any other.
+		case <-l.done:
+		}
+	}
+	select {
+	case l.c <- conn:
+	case <-l.done:
+		// The listener was closed while the stream waited to be accepted:
+		// nobody will ever hold it.
+		h.rmStream(iq.Open.SID)
+	}
 	return nil
 }
 
